@@ -100,6 +100,7 @@ def run(tier):
         # error-path histories (a refused serialisation, then the repaired object and an unrelated one); large payloads
         E.bf3_failed_then_good(rec, r, wd, 6 if tier == "quick" else 60, enc=True)
         E.bf3_large(rec, r, wd, (300, 4128) if tier == "quick" else (257, 300, 1000, 4096, 4128, 8200), read=False)
+        E.bf3_huge(rec, r, wd, tier if not os.environ.get("VERIF_ENVPASS") else "quick")
         # BEC2 framing: header + body at offset = header length
         rcpts = G.Recipients(orc, r, 1)
         for j in range(60 if tier == "quick" else 300):
